@@ -81,8 +81,48 @@ def np_dtype(name):
     return None if name is None else np.dtype(name)
 
 
+def carrier_of(f: Fraction, kind: str):
+    """the number f in one of the less usual carriers a caller may hand over as a factor / divisor:
+    "0d:<dtype>" a 0-d numpy array; "red0d:<dtype>" the 0-d array a masked-array / xarray-like reduction gives;
+    "red:<fn>:<dtype>" the numpy scalar a reduction (sum / max / mean) of an array of that dtype returns;
+    "pybool" / "npbool"; "fraction"; "decimal" (f must have a finite decimal expansion)"""
+    x = int(f) if f.denominator == 1 else f.numerator / f.denominator
+    if kind.startswith("0d:"):
+        a = np.array(x, dtype=np.dtype(kind[3:]))
+        if not (a.ndim == 0 and Fraction(a.item()) == f):
+            raise KeyError(f"carrier {kind} cannot hold {f}")      # (KeyError: a harness error, never taken for a refusal)
+        return a
+    if kind.startswith("red0d:"):
+        a = np.asarray(np.ma.masked_array([x, x], dtype=np.dtype(kind[6:])).mean())
+        if not (a.ndim == 0 and isinstance(a, np.ndarray) and Fraction(a.item()) == f):
+            raise KeyError(f"carrier {kind} cannot hold {f}")
+        return a
+    if kind.startswith("red:"):
+        _, fn, dt = kind.split(":")
+        a = np.array([x, x] if fn != "sum" else [x], dtype=np.dtype(dt))
+        r = getattr(a, fn)()
+        if not (isinstance(r, np.generic) and Fraction(r.item()) == f):
+            raise KeyError(f"carrier {kind} cannot hold {f}")
+        return r
+    if kind in ("pybool", "npbool"):
+        if f not in (0, 1):
+            raise KeyError(f"carrier {kind} cannot hold {f}")
+        return bool(f) if kind == "pybool" else np.bool_(bool(f))
+    if kind == "fraction":
+        return f
+    if kind == "decimal":
+        import decimal
+        d = decimal.Decimal(f.numerator) / decimal.Decimal(f.denominator)
+        if Fraction(d) != f:
+            raise KeyError(f"carrier {kind} cannot hold {f}")
+        return d
+    raise KeyError(kind)
+
+
 def num_of(c: str, kind: str):
     f = Fraction(c)
+    if ":" in kind or kind in ("pybool", "npbool", "fraction", "decimal"):
+        return carrier_of(f, kind)
     if kind == "pyint":
         assert f.denominator == 1
         return int(f)
